@@ -331,4 +331,8 @@ def deploy {K : Type} [DecidableEq K] (E : Env K) (S : Src) (now : Time) (A : Ar
 def detectModifications (mtimes : List Time) (lastBuild : Stamp) : Bool :=
   decide (mtimes.foldl max 0 > lastBuild)
 
+/-- a data directory, or an entry of one, whose file information cannot be read (`fs::canonical` of a dangling
+    link throws): the `catch` block answers "modified" — the safe side, a deployment follows -/
+def detectModificationsOnError : Bool := true
+
 end RimeModel.C12
